@@ -53,7 +53,7 @@ def groups_tuple(l, cs):
     """the (Option<Box>, Vec, Option<Box>) containers of the harness' TNode (see c42.rs TNode::build)"""
     cs = list(cs)
     first = [cs.pop(0)] if l % 2 == 1 and cs else []
-    last = [cs.pop()] if (l // 2) % 2 == 1 and cs else []
+    last = [cs.pop()] if l % 4 != 0 and cs else []
     return [first, cs, last]
 
 
@@ -220,24 +220,8 @@ def run(pid, tier, seed, replay):
     if not cases:
         ck.problem("tie", "harness produced no cases")
         return ck.finish()
-    # ---- direct property oracle (the documented contract evaluated on the implementation's own output)
-    kinds = {}
-    f1_hits = []
-    for c in cases:
-        key = "%s/%s" % (c.get("m") or c["k"], c["im"])
-        kinds[key] = kinds.get(key, 0) + 1
-        if not c.get("ok", False):
-            if c["im"] in GROUPING and not c.get("panic") and not well_grouped(c["t"], GROUPING[c["im"]]):
-                # the documented contract is violated exactly in the way proved by
-                # Props/C42.v C42_trailing_empty_container_refuted (whether the observation matches that
-                # model is checked by the correspondence below)
-                f1_hits.append(c)
-                if len(f1_hits) <= 3:
-                    ck.fail_input(F1, c)
-                continue
-            what = ("PANIC in " if c.get("panic") else "recursion contract violated: ") + describe(c)
-            ck.fail_input(what[:1500], c)
     # ---- correspondence: Coq model vs observation, exact (log, result tree, flag, final directive)
+    disagree = set()
     corr = [c for c in cases if not c.get("panic")]
     if os.path.exists(os.path.join(vlib.COQ, "Model/TreeNode.vo")):
         pre = "From DF Require Import Base.Prelude Model.TreeNode.\nOpen Scope Z_scope."
@@ -247,12 +231,32 @@ def run(pid, tier, seed, replay):
             first = bad[0]
             detail = describe(corr[first]) if isinstance(first, int) else lg
             ck.problem("tie", "Coq model and implementation disagree on %d case(s); first: %s" % (len(bad), str(detail)[:1200]))
-            # a disagreement with a model that is proved to satisfy the contract is a concrete failing input
+            # a disagreement with the model the theorems are about is a concrete failing input
+            for i in [b for b in bad if isinstance(b, int)]:
+                disagree.add(id(corr[i]))
             for i in [b for b in bad if isinstance(b, int)][:5]:
-                if corr[i].get("ok", False):
-                    ck.fail_input("implementation differs from the proved model: " + describe(corr[i])[:1200], corr[i])
+                ck.fail_input("implementation differs from the Coq model: " + describe(corr[i])[:1200], corr[i])
     else:
         ck.problem("tie", "Model/TreeNode.vo missing: correspondence not evaluated")
+    # ---- direct property oracle (the documented contract evaluated on the implementation's own output)
+    kinds = {}
+    f1_hits = []
+    for c in cases:
+        key = "%s/%s" % (c.get("m") or c["k"], c["im"])
+        kinds[key] = kinds.get(key, 0) + 1
+        if not c.get("ok", False):
+            if id(c) in disagree:
+                continue    # already reported above with its concrete input
+            if c["im"] in GROUPING and not c.get("panic") and not well_grouped(c["t"], GROUPING[c["im"]]):
+                # the documented contract is violated exactly in the way proved by
+                # Props/C42.v C42_trailing_empty_container_refuted: the tree is not well grouped and the
+                # observation equals the grouped-container model (correspondence above)
+                f1_hits.append(c)
+                if len(f1_hits) <= 3:
+                    ck.fail_input(F1, c)
+                continue
+            what = ("PANIC in " if c.get("panic") else "recursion contract violated: ") + describe(c)
+            ck.fail_input(what[:1500], c)
     nt = {vlib.case_hash({k: v for k, v in c.items()}) for c in cases if nontrivial(c)}
     sizes = [tsize(c["t"]) for c in cases]
     pick = [c for c in cases if c["k"] == "trans" and c["m"] == "rewrite" and tsize(c["t"]) >= 5 and nontrivial(c)]
